@@ -31,6 +31,8 @@ let dispatch = function
   | ["sha256"; h] -> hex_of_bytes (sha256 (bytes_of_hex h))
   | ["sha256d"; h] -> hex_of_bytes (sha256d (bytes_of_hex h))
   | ["sha512"; h] -> hex_of_bytes (sha512 (bytes_of_hex h))
+  | ["sha256n"; h] -> hex_of_bytes (sha256_n (bytes_of_hex h))
+  | ["ripemd160z"; h] -> hex_of_bytes (ripemd160_z (bytes_of_hex h))
   | ["sha512z"; h] -> hex_of_bytes (sha512_z (bytes_of_hex h))
   | ["ripemd160"; h] -> hex_of_bytes (ripemd160 (bytes_of_hex h))
   | ["hash160"; h] -> hex_of_bytes (hash160 (bytes_of_hex h))
@@ -42,7 +44,11 @@ let dispatch = function
   | ["powmod"; b; e; m] -> str_z (powmod (z_of b) (z_of e) (z_of m))
   | ["invmod"; a; m] -> str_z (inv_mod (z_of a) (z_of m))
   | ["invmodf"; a; m] -> str_z (inv_mod_fermat (z_of a) (z_of m))
-  | ["sqrt"; a] -> str_z (mod_sqrt (z_of a))
+  | ["sqrt"; a] ->
+      (* the smaller of the two roots, or NONE when the candidate does not square to a *)
+      let a = BZ.erem (z_of a) secp_p in
+      let y = mod_sqrt a in
+      if BZ.equal (BZ.erem (BZ.mul y y) secp_p) a then str_z (BZ.min y (BZ.sub secp_p y)) else "NONE"
   | ["oncurve"; p] -> bool_s (on_curve (pt_of_tok p))
   | ["neg"; p] -> tok_of_pt (pt_neg (pt_of_tok p))
   | ["add"; p; q] -> tok_of_pt (pt_add (pt_of_tok p) (pt_of_tok q))
@@ -67,7 +73,7 @@ let dispatch = function
   | ["bench"; n; what; h] ->
       let b = bytes_of_hex h in
       let f = (match what with
-          | "sha256" -> sha256 | "sha512" -> sha512 | "sha512z" -> sha512_z | "ripemd160" -> ripemd160 | "hash160" -> hash160
+          | "sha256" -> sha256 | "sha512" -> sha512 | "sha512z" -> sha512_z | "sha256n" -> sha256_n | "ripemd160z" -> ripemd160_z | "ripemd160" -> ripemd160 | "hash160" -> hash160
           | _ -> failwith "bench") in
       bench (int_of_string n) (fun () -> f b)
   | _ -> "BADREQ"
